@@ -34,6 +34,67 @@ def sym_of(mode):
                      part("o", mode & 7, mode & 0o1000, "t")])
 
 
+def chmod_symbolic(spec, isdir=False):
+    """POSIX chmod symbolic mode evaluated from mode 0 with umask 0 (an independent reference)"""
+    mode = 0
+    for clause in spec.split(","):
+        i = 0
+        who = 0
+        while i < len(clause) and clause[i] in "ugoa":
+            who |= {"u": 0o4700, "g": 0o2070, "o": 0o1007, "a": 0o7777}[clause[i]]
+            i += 1
+        if who == 0:
+            who = 0o7777
+        while i < len(clause):
+            op = clause[i]
+            i += 1
+            bits = 0
+            if i < len(clause) and clause[i] in "ugo":
+                src = {"u": (mode >> 6) & 7, "g": (mode >> 3) & 7, "o": mode & 7}[clause[i]]
+                bits = (src << 6) | (src << 3) | src
+                i += 1
+            else:
+                while i < len(clause) and clause[i] in "rwxXst":
+                    ch = clause[i]
+                    if ch == "r":
+                        bits |= 0o444
+                    elif ch == "w":
+                        bits |= 0o222
+                    elif ch == "x":
+                        bits |= 0o111
+                    elif ch == "X":
+                        if isdir or (mode & 0o111):
+                            bits |= 0o111
+                    elif ch == "s":
+                        bits |= 0o6000
+                    elif ch == "t":
+                        bits |= 0o1000
+                    i += 1
+            bits &= who
+            if op == "+":
+                mode |= bits
+            elif op == "-":
+                mode &= ~bits
+            else:
+                mode = (mode & ~(who & 0o7777 if True else 0)) | bits
+                # '=' clears the selected classes' rwx (and their special bit) before setting
+    return mode & 0o7777
+
+
+def gen_symbolic(rng):
+    """a multi-clause symbolic mode whose later clauses remove, re-assign or copy bits of earlier ones"""
+    clauses = []
+    for _ in range(rng.randint(2, 4)):
+        who = "".join(rng.sample("ugo", rng.randint(1, 3))) if rng.random() < 0.8 else "a"
+        op = rng.choice("+-==")
+        if rng.random() < 0.2:
+            perm = rng.choice("ugo")
+        else:
+            perm = "".join(rng.sample("rwx", rng.randint(0, 3)))
+        clauses.append(who + op + perm)
+    return ",".join(clauses)
+
+
 def build(d, rng):
     r = os.path.join(d, "r")
     os.mkdir(r)
@@ -131,6 +192,12 @@ def run(ctx):
                     perm_cases.append((pre + spelling, kind, m))
         for op, kind, m in perm_cases:
             tests.append((["-perm", op], ("perm", kind, m), False))
+        # symbolic operands with subtracting / re-assigning / copying clauses, against the octal value the reference evaluator gives
+        for _ in range(60 if ctx.thorough else 14):
+            sym = gen_symbolic(rng)
+            m = chmod_symbolic(sym)
+            pre, kind = rng.choice([("", "exact"), ("-", "all"), ("/", "any")])
+            tests.append((["-perm", pre + sym], ("perm", kind, m), False, "keep"))
         for flag, fn in (("-links", lambda s: s.st_nlink), ("-inum", lambda s: s.st_ino), ("-uid", lambda s: s.st_uid), ("-gid", lambda s: s.st_gid)):
             vals = sorted({fn(v[0]) for v in views.values()})[:5]
             for v in vals:
@@ -145,12 +212,13 @@ def run(ctx):
             tests.append((["-samefile", "r/" + ref], ("samefile", ref), False))
         tests.append((["-empty"], "empty", False))
         if not ctx.thorough:
-            head = [t for t in tests if t[0][0] in ("-type", "-xtype", "-lname", "-empty", "-samefile")]
+            head = [t for t in tests if t[0][0] in ("-type", "-xtype", "-lname", "-empty", "-samefile") or len(t) == 4]
             rest = [t for t in tests if t not in head]
             rng.shuffle(rest)
             tests = head + rest[:60]
         cases = []
-        for args, fn, xflag in tests:
+        for t in tests:
+            args, fn, xflag = t[:3]
             for mode in "PHL":
                 cases.append((mode, 1, ["r"], args, fn, xflag))
                 # every entry as a starting point of its own (depth 0)
